@@ -33,18 +33,16 @@ Proof.
 Qed.
 
 (* ---- assoc ------------------------------------------------------------------------------------------------ *)
-Lemma assoc_test_symmetric : forall t item k, test_symmetric t = true -> assoc_test t item k = item_match t item None k.
-Proof.
-  intros [|[]|[]] item k H; try discriminate; cbn; try reflexivity; rewrite (Z.eqb_sym k item); reflexivity.
-Qed.
+Lemma assoc_test_item_match : forall t item k, assoc_test t item k = item_match t item None k.
+Proof. intros [| |] item k; reflexivity. Qed.
 
 Lemma find_ext : forall (A : Type) (f g : A -> bool) l, (forall x, f x = g x) -> find f l = find g l.
 Proof. intros A f g l H. induction l as [|x t IH]; [reflexivity|]. cbn. now rewrite H, IH. Qed.
 
-Lemma assoc_find_eq : forall t item key (side : Z * Z -> Z) al, test_symmetric t = true ->
+Lemma assoc_find_eq : forall t item key (side : Z * Z -> Z) al,
   find (fun kv => assoc_test t item (key_app key (side kv))) al = find (fun kv => item_match t item key (side kv)) al.
 Proof.
-  intros. apply find_ext. intros kv. rewrite assoc_test_symmetric by assumption.
+  intros. apply find_ext. intros kv. rewrite assoc_test_item_match.
   unfold item_match. cbn [key_app]. reflexivity.
 Qed.
 
@@ -61,11 +59,11 @@ Proof.
   unfold m_call, s_call, m_assoc, s_assoc. rewrite S.
   destruct (c_fn c) eqn:F; try discriminate Hf; cbn in D, K.
   - apply andb_true_iff in D as [_ T]. f_equal.
-    destruct (c_test c) eqn:E; try discriminate T; rewrite <- E in *; rewrite assoc_find_eq by exact T; reflexivity.
+    destruct (c_test c) eqn:E; try discriminate T; rewrite <- E in *; rewrite assoc_find_eq; reflexivity.
   - destruct (c_test c); try discriminate K. reflexivity.
   - destruct (c_test c); try discriminate K. reflexivity.
   - apply andb_true_iff in D as [_ T]. f_equal.
-    destruct (c_test c) eqn:E; try discriminate T; rewrite <- E in *; rewrite assoc_find_eq by exact T; reflexivity.
+    destruct (c_test c) eqn:E; try discriminate T; rewrite <- E in *; rewrite assoc_find_eq; reflexivity.
   - destruct (c_test c); try discriminate K. reflexivity.
 Qed.
 
